@@ -1,5 +1,8 @@
 import Model.Murmur
 import Model.Token
+import Model.Routing
+import Model.Marshal
+import Driver.C12
 import Driver.Util
 namespace Driver.C09
 open Util
@@ -9,14 +12,143 @@ def splitSteps (ws : List String) : List (List String) :=
   let r := ws.foldr (fun w (acc : List String × List (List String)) => if w == "/" then ([], acc.1 :: acc.2) else (w :: acc.1, acc.2)) ([], [])
   r.1 :: r.2
 
+
+/-! ### op `rkm`: routing key through Session.routingKeyInfo (metadata of the prepared statement) -/
+
+open ValueSpec (CqlTy) in
+def pCols : Nat → List String → Option (List (Routing.Col CqlTy) × List String)
+  | 0, ws => some ([], ws)
+  | n+1, "|" :: name :: r => do
+      let (t, r1) ← Driver.C12.pTy (r.length + 1) r
+      let (cs, r2) ← pCols n r1
+      some (⟨name, t⟩ :: cs, r2)
+  | _, _ => none
+
+def pVals : Nat → List String → Option (List Marshal.GoVal × List String)
+  | 0, ws => some ([], ws)
+  | n+1, "|" :: r => do
+      let (v, r1) ← Driver.C12.pVal (r.length + 1) r
+      let (vs, r2) ← pVals n r1
+      some (v :: vs, r2)
+  | _, _ => none
+
+def pRows : List Nat → List String → Option (List (List Marshal.GoVal))
+  | [], [] => some []
+  | [], _ :: _ => none
+  | n :: ns, ws => do
+      let (vs, rest) ← pVals n ws
+      let more ← pRows ns rest
+      some (vs :: more)
+
+/-- a schema row `name:kind:position`; the partition-key rows -/
+def pSchemaRow (w : String) : Option (Option (String × Nat)) :=
+  match w.splitOn ":" with
+  | [n, k, p] => p.toNat?.map (fun p => if k == "p" then some (n, p) else none)
+  | _ => none
+
+def takeN (n : Nat) (ws : List String) : Option (List String × List String) :=
+  if ws.length < n then none else some (ws.take n, ws.drop n)
+
+/-- gocql.Marshal as modelled for C12 -/
+def encOf (p : Nat) (t : ValueSpec.CqlTy) (v : Marshal.GoVal) : Routing.Enc :=
+  match Marshal.marshal p t v with
+  | .ok b => .ok b
+  | .err => .err
+  | .crash => .crash
+  | .unmodelled => .crash
+
+def showKey (isQuery : Bool) (ks tbl : String) : Routing.KeyRes → String
+  | .nokey => if isQuery then "nil ." else "nil"
+  | .key none => if isQuery then "nil " ++ ks ++ "." ++ tbl else "nil"
+  | .key (some b) => "ok " ++ Driver.C12.toHexC b ++ (if isQuery then " " ++ ks ++ "." ++ tbl else "")
+  | .errMarshal => "err:marshal"
+  | .errMeta => "err:meta"
+  | .crash => "crash"
+
+/-- rkm <proto> <gs> <q|b|bx> <npk> <idx>… <sch> <m> <name:kind:pos>… <ncols> {| <name> <T…>}… | <nrows> <nvals>… {| <V…>}…
+    gs = global table spec flag of the PREPARE answer (keyspace "ks", table "tbl"); sch = 1|2: the schema tables of
+    "ks" have table "tbl" with the column rows <name:kind:position>… (kind p = partition key), compiled by
+    compileMetadata; 0: they do not have it. One answer per row, joined by " ; ". -/
+def rkm (ws : List String) : Option String := do
+  match ws with
+  | p :: gs :: kind :: npk :: r0 =>
+    let p ← p.toNat?
+    let npk ← npk.toNat?
+    let (pkw, r1) ← takeN npk r0
+    let pk ← pkw.mapM (·.toNat?)
+    match r1 with
+    | sch :: m :: r2 =>
+      let m ← m.toNat?
+      let (roww, r3) ← takeN m r2
+      let srows ← roww.mapM pSchemaRow
+      -- TableMetadata.PartitionKey as compileMetadata builds it; a nil entry is not modelled (never generated)
+      let names ← (Routing.schemaPartitionKey (srows.filterMap id)).mapM id
+      match r3 with
+      | ncols :: r4 =>
+        let ncols ← ncols.toNat?
+        let (cols, r5) ← pCols ncols r4
+        match r5 with
+        | "|" :: nrows :: r6 =>
+          let nrows ← nrows.toNat?
+          let (cntw, r7) ← takeN nrows r6
+          let cnts ← cntw.mapM (·.toNat?)
+          let rows ← pRows cnts r7
+          let global := gs == "1"
+          let ks := if global then "ks" else ""
+          let tbl := if global then "tbl" else ""
+          let md : Routing.Meta ValueSpec.CqlTy := ⟨cols, pk, ks, tbl⟩
+          let schema : Option (List String) := if sch != "0" && global then some names else none
+          let isQuery := kind == "q"
+          some (" ; ".intercalate (rows.map (fun vals =>
+            showKey isQuery ks tbl (Routing.getRoutingKey (encOf p) md schema vals))))
+        | _ => none
+      | [] => none
+    | _ => none
+  | _ => none
+
+/-- a canonical decimal int64 token string -/
+def canonInt (s : String) : Option Int :=
+  match s.toInt? with
+  | some i => if toString i == s && Token.int64Min ≤ i && i ≤ Token.int64Max then some i else none
+  | none => none
+
+def canonNat (s : String) : Option Nat :=
+  match s.toNat? with
+  | some n => if toString n == s then some n else none
+  | none => none
+
+/-- ringsort m|r|o <token>… with "/" between the hosts: the ring's tokens in ring order -/
+def ringsort (kind : String) (ws : List String) : String :=
+  let toks := ws.filter (· != "/")
+  match kind with
+  | "m" => match toks.mapM canonInt with
+      | some l => " ".intercalate ((Routing.ringSortInt l).map toString)
+      | none => "bad-op"
+  | "r" => match toks.mapM canonNat with
+      | some l => " ".intercalate ((Routing.ringSortNat l).map toString)
+      | none => "bad-op"
+  | "o" => match toks.mapM parseHex with
+      | some l => " ".intercalate ((Routing.ringSortLex l).map toHex)
+      | none => "bad-op"
+  | _ => "bad-op"
+
+def chars (bs : List UInt8) : List Char := bs.map (fun b => Char.ofNat b.toNat)
+def canonical (bs : List UInt8) : Bool :=
+  let cs := chars bs
+  Token.printInt (Token.parseInt64 cs) == cs
+
 /-- ops (answer is compared with the implementation's answer by the check driver):
   murmur <hex>            → signed decimal int64 token
   random <hex16 digest>   → decimal token
   ordlt <hex> <hex>       → true|false
-  parsem <string>         → int64 (murmur3 ParseString().String())
+  parsem <string>         → int64 (murmur3 ParseString().String()) of a VALID token string; parsemx: any string
   rkey <hex> <hex> ...    → hex routing key of the encoded components
   qrk <c..> / <c..> / …   → one key per step (a Query object re-bound step by step)
-  qrke <explicit> / <c..> / … → the explicit key at every step -/
+  qrke <explicit> / <c..> / … → the explicit key at every step
+  rkm …                   → routing keys through routingKeyInfo (see `rkm`)
+  lessm <a> <b>           → Less of two VALID (canonical decimal int64) Murmur3 token strings; lessmx: any strings
+  hlessm <k1> <k2>        → Less of the Murmur3 tokens of two keys; hlessr <d1> <k1> <d2> <k2>: Random
+  ringsort m|r|o …        → the token ring order -/
 def step (_ : Unit) (ws : List String) : Unit × String :=
   ((), match ws with
   | ["murmur", h] => match parseHex h with
@@ -29,6 +161,9 @@ def step (_ : Unit) (ws : List String) : Unit × String :=
       | some x, some y => toString (Token.lexLt x y)
       | _, _ => "bad-op"
   | ["parsem", h] => match parseHex h with
+      | some bs => if canonical bs then toString (Token.parseInt64 (chars bs)) else "noncanonical"
+      | none => "bad-op"
+  | ["parsemx", h] => match parseHex h with
       | some bs => toString (Token.parseInt64 (bs.map (fun b => Char.ofNat b.toNat)))
       | none => "bad-op"
   | ["parser", h] => match parseHex h with
@@ -37,6 +172,21 @@ def step (_ : Unit) (ws : List String) : Unit × String :=
         | none => "undefined"
       | none => "bad-op"
   | ["lessm", a, b] => match parseHex a, parseHex b with
+      | some x, some y =>
+        if canonical x && canonical y then
+          toString (decide (Token.parseInt64 (chars x) < Token.parseInt64 (chars y)))
+        else "noncanonical"
+      | _, _ => "bad-op"
+  | ["hlessm", a, b] => match parseHex a, parseHex b with
+      | some x, some y => toString (decide ((Murmur.murmur3H1 x).toInt < (Murmur.murmur3H1 y).toInt))
+      | _, _ => "bad-op"
+  | ["hlessr", a, _, b, _] => match parseHex a, parseHex b with
+      | some x, some y => if x.length = 16 && y.length = 16 then toString (decide (Token.randomToken x < Token.randomToken y)) else "bad-op"
+      | _, _ => "bad-op"
+  | "rkm" :: r => (rkm r).getD "bad-op"
+  | "rkmx" :: r => (rkm r).getD "bad-op"
+  | "ringsort" :: k :: r => ringsort k r
+  | ["lessmx", a, b] => match parseHex a, parseHex b with
       | some x, some y => toString (decide (Token.parseInt64 (x.map (fun b => Char.ofNat b.toNat)) < Token.parseInt64 (y.map (fun b => Char.ofNat b.toNat))))
       | _, _ => "bad-op"
   | ["lessr", a, b] => match parseHex a, parseHex b with
